@@ -500,13 +500,20 @@ def c05_refusals(tier, mi):
     args = ["hist", "--depth", str(depth), "--per-child", "256", "--fs", "--small", "--refusals"]
     outs = run_engine_sharded(bin_path("e3"), args, NCPU, timeout=2400)
     m = _merge_hist(outs)
+    # the same refusals, one level shallower, against the build without debug assertions: a refusal that
+    # is only an assertion must not turn into a fault there
+    args_n = ["hist", "--depth", str(depth - 1), "--per-child", "256", "--fs", "--small", "--refusals"]
+    mn = _merge_hist(run_engine_sharded(bin_path("e3", "nodbg"), args_n, NCPU, timeout=2400))
     viols = []
-    for v in sorted(m["violations"], key=lambda v: (v["step"] & 0xFFF, len(v["history"]))):
-        if v["prop"] == "MACHINERY":
-            raise MachineryError(f"{v['key']}: {v['what']}")
-        abnormal = any(o.startswith("R") or o == "P" for o in v["history"])
-        if v["prop"] == "C05" or (v["prop"] == "*" and abnormal):
-            viols.append({"key": v["key"], "what": v["what"], "engine": "e3", "args": ["hist", "--fs", "--refusals"], "case": {"history": v["history"], "step": v["step"] & 0xFFF}})
+    for mm, tag in ((m, []), (mn, ["@nodbg"])):
+        for v in sorted(mm["violations"], key=lambda v: (v["step"] & 0xFFF, len(v["history"]))):
+            if v["prop"] == "MACHINERY":
+                raise MachineryError(f"{v['key']}: {v['what']}")
+            abnormal = any(o.startswith("R") or o == "P" for o in v["history"])
+            if v["prop"] == "C05" or (v["prop"] == "*" and abnormal):
+                viols.append({"key": v["key"] + (":nodbg-profile" if tag else ""), "what": v["what"] + (" (build without debug assertions)" if tag else ""), "engine": "e3", "args": ["hist", "--fs", "--refusals"] + tag, "case": {"history": v["history"], "step": v["step"] & 0xFFF}})
+    m["steps"] += mn["steps"]
+    m["histories"] += mn["histories"]
     for (p, k), n in m["counts"].items():
         have = [v for v in viols if v["key"] == k]
         if have and n > len(have) and p == "C05":
@@ -725,7 +732,7 @@ E1_ASSUME = [
 
 
 def check_c01(tier):
-    return e1_family("C01", tier, ["c01"] if tier == "quick" else ["c01", "c01@release"], ("C01",), True,
+    return e1_family("C01", tier, ["c01", "c01@release"], ("C01",), True,
                      ["entry-straddles-page", "trampoline:long", "trampoline:rel32", "trampoline:bool-stub", "refused", "real-call"],
                      E1_ASSUME + ["Windows-style long entry patches and the macOS patch_function are not compiled on this host"],
                      "states = placements (function address incl. in-page offset x trampoline page displacement x fake address x install kind) each run through the real x86-64 installer under the OS model; transitions = install, call, remove; the whole structured address domain listed under bound was enumerated")
